@@ -253,6 +253,14 @@ def enumerate_cases(tier):
                 fixed.append({"op": "prod", "operands": shapes[(k + 3) % len(shapes)]})
             c = [n for n in names if n not in (a, b)][0]
             fixed.append({"op": "prod", "operands": [A, B, {"op": c, "w": [0]}, nonp[0], B]})
+    # same-axis rotations that cancel and are followed by further equal rotations (the merged factor is an Identity in between)
+    for r in ("RX", "RY", "RZ"):
+        for a in (0.7, -1.3):
+            R = lambda x, r=r: {"op": r, "p": [x], "w": [0]}  # noqa: E731
+            fixed.append({"op": "prod", "operands": [R(a), R(-a), R(-a)]})
+            fixed.append({"op": "prod", "operands": [R(a), R(-a), R(-a), R(-a), {"op": "Hadamard", "w": [0]}]})
+            fixed.append({"op": "prod", "operands": [{"op": "Hadamard", "w": [1]}, R(a), R(round(4 * np.pi - a, 12)), R(round(4 * np.pi - a, 12)), R(a)]})
+            fixed.append({"op": "prod", "operands": [R(a), {"op": "pow", "base": R(-a), "z": 2}, R(a), R(a), R(a)]})
     for e in fixed:
         used = zoo_extra.spec_wires(e)
         yield {"expr": e, "order": list(reversed(used)) + ["zz"], "map": [[w, f"m{i}"] for i, w in enumerate(used)]}
